@@ -98,9 +98,13 @@ type VCtx struct {
 	actionOld *State
 	csCount   int
 	goCount   int
+	closeCount int
 	heldAtEntry *Term
 	published map[string]bool
 	freshObjs []*Term
+	allFresh  []*Term           // every struct object allocated by this invocation
+	storedIn  map[string][]Val  // values stored into a not yet published fresh object / local cell (published with it)
+	exemptFresh []*Term // set while translating a global clause to be proved: unpublished fresh objects
 	lastCSEntry *State // state right after the most recent lock acquisition (csold)
 	localMon  *localMonState
 	writesZero bool
@@ -650,6 +654,10 @@ type Frame struct {
 	curIdx   int
 	unlocks  int
 	gos      int
+	closes   int
+	csEntry  *State // state right after the most recent lock acquisition performed by this frame
+	callbacks int
+	invokes  int
 }
 
 type deferred struct {
